@@ -64,6 +64,36 @@ class Index:
         self.line = None
         for d in docs:
             self._walk(d, None)
+        self.lambda_order = {}     # id(function decl node) -> [LambdaExpr nodes in source order]
+        self._cnt = {}
+        for d in docs:
+            self._name_lambdas(d, None)
+
+    def _name_lambdas(self, n, fn):
+        """stable names for closure types: <file stem>_<enclosing function>_<ordinal in source order> instead of line:col,
+        so that edits which only shift lines do not rename anything a spec refers to"""
+        k = n.get('kind')
+        if k in FUNC_KINDS and fn is None and n.get('name'):
+            fn = n
+        if k == 'LambdaExpr' and fn is not None:
+            rec = [c for c in n.get('inner', []) if isinstance(c, dict) and c.get('kind') == 'CXXRecordDecl']
+            if rec:
+                loc = rec[0].get('loc', {})
+                if 'expansionLoc' in loc:
+                    loc = loc['expansionLoc']
+                key = (os.path.basename(rec[0].get('_file') or ''), rec[0].get('_line'), loc.get('col'))
+                if key not in LAMBDA_STABLE:
+                    stem = re.sub(r'\W', '_', os.path.splitext(key[0])[0])
+                    fname = re.sub(r'\W', '_', fn['name'].replace('~', 'dtor_').replace('operator()', 'op_call')).strip('_')
+                    ck = (stem, fname)
+                    self._cnt[ck] = self._cnt.get(ck, 0) + 1
+                    LAMBDA_STABLE[key] = '%s_%s_%d' % (stem, fname, self._cnt[ck])
+                lst = self.lambda_order.setdefault(id(fn), [])
+                if not any(x is n for x in lst):
+                    lst.append(n)
+        for c in n.get('inner', []):
+            if isinstance(c, dict):
+                self._name_lambdas(c, fn)
 
     def _bare(self, loc):
         if not isinstance(loc, dict):
@@ -444,10 +474,20 @@ def split_top_commas(s):
     return out
 
 
+LAMBDA_STABLE = {}   # (file basename, line, col) -> stable closure tag (filled by Index)
+
+
+def _lambda_tag(m):
+    key = (m.group(1), int(m.group(2)), int(m.group(3)))
+    if key in LAMBDA_STABLE:
+        return 'lambda_' + LAMBDA_STABLE[key]
+    return 'lambda_%s_%s_%s' % (re.sub(r'\W', '_', m.group(1)), m.group(2), m.group(3))
+
+
 def sanitize(s):
     s = norm_name(s) if not re.match(r'^\w+$', s) else s
     s = s.replace('::', '__')
-    s = re.sub(r'\((?:lambda|anonymous class) at [^:]*/([^/:]+):(\d+):(\d+)\)', lambda m: 'lambda_%s_%s_%s' % (re.sub(r'\W', '_', m.group(1)), m.group(2), m.group(3)), s)
+    s = re.sub(r'\((?:lambda|anonymous class) at [^:]*/([^/:]+):(\d+):(\d+)\)', _lambda_tag, s)
     s = s.replace('<', '_L_').replace('>', '_R').replace(',', '_').replace('*', 'P').replace('&', 'Ref')
     s = re.sub(r'[^A-Za-z0-9_]', '_', s)
     s = re.sub(r'_+', '_', s).strip('_')
@@ -915,7 +955,7 @@ class Unit:
             bdecl = self.records.get(bt[1])
             if bdecl is not None and bdecl.get('definitionData', {}).get('isPolymorphic'):
                 base_poly = True
-            if bdecl is None and bt[1] in ('std::pmr::memory_resource',):
+            if bdecl is None and bt[1] in ('std::pmr::memory_resource', 'std::basic_streambuf<char>'):   # polymorphic std bases (the layout self-check confirms)
                 base_poly = True
             out.append(('base', '__base_' + sanitize(bt[1].split('::')[-1]), bt))
         if dd.get('isPolymorphic') and not base_poly:
@@ -1146,14 +1186,18 @@ class Unit:
             self.want(d)
         return names
 
-    def add_lambda_root(self, within, file_suffix, line):
-        """operator() of the lambda written at file:line inside the (instantiated) function `within`"""
+    def add_lambda_root(self, within, file_suffix=None, line=None, ordinal=None):
+        """operator() of a lambda inside the (instantiated) function `within`: the ordinal-th in source order (stable under edits
+        that shift lines), or the one written at file:line"""
         want = norm_name(within)
         found = []
 
         def walk(n, out):
-            if n.get('kind') == 'LambdaExpr' and (n.get('_file') or '').endswith(file_suffix) and n.get('_line') == line:
-                out.append(n)
+            if n.get('kind') == 'LambdaExpr':
+                if ordinal is not None:
+                    out.append(n)
+                elif (n.get('_file') or '').endswith(file_suffix) and n.get('_line') == line:
+                    out.append(n)
             for c in n.get('inner', []):
                 if isinstance(c, dict):
                     walk(c, out)
@@ -1163,9 +1207,16 @@ class Unit:
                 continue
             if self._is_template_pattern(d):
                 continue
-            walk(d, found)
+            if ordinal is not None:
+                allin = []
+                walk(d, allin)
+                if len(allin) >= ordinal:
+                    found.append(allin[ordinal - 1])
+            else:
+                walk(d, found)
+        found = list({id(x): x for x in found}.values())
         if len(found) != 1:
-            raise Abort('lambda at %s:%s inside %s: %d matches (expected exactly one)' % (file_suffix, line, within, len(found)))
+            raise Abort('lambda %s inside %s: %d matches (expected exactly one)' % ('#%d' % ordinal if ordinal is not None else 'at %s:%s' % (file_suffix, line), within, len(found)))
         rec = [c for c in found[0]['inner'] if c.get('kind') == 'CXXRecordDecl'][0]
         ops = [c for c in rec.get('inner', []) if c.get('kind') == 'CXXMethodDecl' and c.get('name') == 'operator()']
         if len(ops) != 1:
